@@ -106,7 +106,8 @@ impl CpcModel {
         let mut t = 0.0f64;
         for col in (0..64usize).rev() {
             let unset = k - self.col_cnt[col] as u64;
-            t += unset as f64 * (-(col as f64 + 1.0)).exp2();
+            // 2^-(col+1), exact
+            t += unset as f64 * f64::from_bits((1022 - col as u64) << 52);
         }
         t
     }
